@@ -64,6 +64,30 @@ def _n1(run, M, alg, base):
 
 
 
+def _unit_scalar_apply(M, c):
+    """every returning path of c._apply returns k * input for a literal constant k with |k| = 1 (`-input`, `1j * input`): a unitary map"""
+    from ..common import vn_paths
+    af = M.method(c, "_apply", inherit=False)
+    if af is None or not af.params or len(af.params) < 2:
+        return False
+    try:
+        _, outs = vn_paths(M, af)
+    except Exception:
+        return False
+    x = T.sym(af.params[1])
+    rets = [o for o in outs if o.status == "return"]
+    if not rets:
+        return False
+    for o in rets:
+        r = o.ret
+        if not isinstance(r, T.Poly) or len(r.t) != 1:
+            return False
+        (m, k), = r.t.items()
+        if T.Poly({m: T.ONE}) != x or k[0] * k[0] + k[1] * k[1] != 1:
+            return False
+    return True
+
+
 def check(run, M, tier):
     run.rule("N1", "Linop._normal_linop returns self.H * self (adjoint first); properties N/H return the cached result of _normal_linop()/_adjoint_linop()")
     run.rule("N2", "an overriding _normal_linop returns A^H A or an Identity/self shortcut; the shortcut is admissible only for unitary primitives "
@@ -111,7 +135,9 @@ def check(run, M, tier):
                     continue
                 kind = _classify_normal(alg, inst, r)
                 if kind == "identity":
-                    if sig in UNITARY:
+                    if sig not in UNITARY and c.name not in COMBINATORS and _unit_scalar_apply(M, c):
+                        run.ok("N2", ctx, "Identity shortcut: _apply multiplies by a constant of modulus 1", nf.loc())
+                    elif sig in UNITARY:
                         okk = _no_override(run, c, sigs, nf)
                         run.check(okk, "N2", ctx, nf.loc(), "Identity shortcut for the unitary primitive %s (%s)" % (sig, UNITARY[sig]),
                                   "%s returns the Identity shortcut although its _apply overrides the normalisation/output shape of %s" % (c.name, sig),
